@@ -531,10 +531,15 @@ impl TriMesh {
                 n[0] = -n[0];
                 n[1] = -n[1];
                 n[2] = -n[2];
+                // The triangle `[a, b, c]` became `[b, a, c]`: its second edge is now
+                // the former third edge, and conversely.
+                n.swap(1, 2);
             }
         }
 
-        if self.flags.contains(TriMeshFlags::HALF_EDGE_TOPOLOGY) {
+        if self.flags.intersects(
+            TriMeshFlags::HALF_EDGE_TOPOLOGY | TriMeshFlags::DELETE_BAD_TOPOLOGY_TRIANGLES,
+        ) {
             // TODO: this could be done more efficiently.
             let _ = self.compute_topology(false);
         }
